@@ -25,6 +25,31 @@ pub fn vocab_of(lang: &str) -> &'static Vocab {
                         v.common.push(w);
                     }
                 }
+                // fuzzing dictionary harvested from the tree under test (build.rs): single-word string literals of
+                // src/lang/<code>/*.rs that this tree's library treats as ordinary words
+                for w in crate::SRC_DICT.iter().find(|(c, _)| c == l).map(|(_, ws)| *ws).unwrap_or(&[]) {
+                    let lo = w.to_lowercase();
+                    // unknown to the interpreter in every builder state we can put it in (a bare scale word like
+                    // `mila` is rejected on an empty builder only)
+                    let unknown = ["", "1", "2", "7", "20", "100", "1000", "2000000"].iter().all(|pre| {
+                        let mut probe = text2num::digit_string::DigitString::new();
+                        if !pre.is_empty() {
+                            let _ = probe.put(pre.as_bytes());
+                        }
+                        matches!(text2num::LangInterpreter::apply(lg, &lo, &mut probe), Err(text2num::error::Error::NaN))
+                            && matches!(text2num::LangInterpreter::apply_decimal(lg, &lo, &mut probe), Err(text2num::error::Error::NaN))
+                    });
+                    let is_num = text2num::text2digits(w, lg).is_ok();
+                    let is_link = text2num::LangInterpreter::is_linking(lg, &lo);
+                    let is_sep = text2num::LangInterpreter::is_decimal_sep(lg, &lo);
+                    let known = v.number_words.iter().any(|x| x.to_lowercase() == lo) || v.linking.contains(&lo.as_str()) || lo == v.conj || lo == v.sep || v.conj_alts.contains(&lo.as_str()) || v.zeros.contains(&lo.as_str());
+                    if unknown && !is_num && !is_link && !is_sep && !known && !v.fillers.iter().any(|f| f.to_lowercase() == lo) {
+                        let leaked: &'static str = Box::leak(lo.clone().into_boxed_str());
+                        v.fillers.push(leaked);
+                        v.common.push(leaked);
+                        v.srcdict.push(leaked);
+                    }
+                }
                 v
             })
             .collect()
